@@ -344,8 +344,28 @@ def build_storage(topo):
 def make_registry(specs, order):
     from annet.mesh import Left, MeshRulesRegistry, Right, separate_ports, united_ports
     reg = MeshRulesRegistry()
+    handlers = {}
     for i in order:
         s = specs[i]
+        root = s.get("same_handler", i)
+        if root in handlers:
+            handler = handlers[root]
+        else:
+            handler = handlers[root] = _mk_handler(specs[root], root)
+        flt = ()
+        if s["filter"]:
+            side, op, val = s["filter"]
+            e = (Left if side == "L" else Right).n
+            flt = ({"==": e == val, "!=": e != val, ">=": e >= val, "<": e < val}[op],)
+        if s["kind"] == "direct":
+            reg.direct(s["lmask"], s["rmask"], *flt, port_processor=(united_ports if s["ports"] == "united" else separate_ports))(handler)
+        else:
+            reg.indirect(s["lmask"], s["rmask"], *flt)(handler)
+    return reg
+
+
+def _mk_handler(s, i):
+    if True:
         shared_families = set(s["families"])   # a rule-file constant: the SAME set object is assigned by every call of this handler
 
         def handler(l, r, sess, s=s, shared_families=shared_families):
@@ -359,16 +379,7 @@ def make_registry(specs, order):
             for kf, v in sf.items():
                 setattr(sess, kf, v)
         handler.__qualname__ = "h%d" % i
-        flt = ()
-        if s["filter"]:
-            side, op, val = s["filter"]
-            e = (Left if side == "L" else Right).n
-            flt = ({"==": e == val, "!=": e != val, ">=": e >= val, "<": e < val}[op],)
-        if s["kind"] == "direct":
-            reg.direct(s["lmask"], s["rmask"], *flt, port_processor=(united_ports if s["ports"] == "united" else separate_ports))(handler)
-        else:
-            reg.indirect(s["lmask"], s["rmask"], *flt)(handler)
-    return reg
+        return handler
 
 
 # ------------------------------------------------------------------ strategies
@@ -411,6 +422,12 @@ def _gen_mesh(rnd):
             "mtu_left": rnd.choice([None, None, 9000]), "descr": rnd.choice([None, None, "d1", "d2"]),
             "iface": rnd.choice(["port", "port", "lag", "lag", "subif", "svi"]) if kind == "direct" else rnd.choice(["none", "none", "svi"]),
         })
+    if rnd.chance(30):
+        # stacked decorators: ONE handler function registered under a second rule (other templates / filter, same kind)
+        j = rnd.randint(0, len(specs) - 1)
+        o = specs[j]
+        others = [r for r in roles if not o["rmask"].startswith(r)] or roles
+        specs.append(dict(o, rmask=rnd.choice(MASKS[rnd.choice(others)]), filter=rnd.choice(FILTERS), same_handler=j))
     return {"kind": "mesh", "names": names, "links": links, "specs": specs}
 
 
